@@ -31,7 +31,8 @@ def pick_step(rng, pool):
     """choose an operation and pool members; returns (op, live argument objects, serialised arguments)"""
     cs = [i for i, v in enumerate(pool) if isinstance(v, PolyhedralIoContract)]
     ts = [i for i, v in enumerate(pool) if isinstance(v, PolyhedralTermList)]
-    op = rng.choice(["compose", "compose_tactics", "quotient", "merge", "refines", "rename", "copy", "elim_refine", "elim_relax",
+    op = rng.choice(["compose", "compose_tactics", "quotient", "merge", "refines", "rename", "rename_one", "copy", "elim_refine", "elim_refine",
+                     "elim_relax",
                      "tl_simplify", "tl_refines", "contains", "optimize", "bounds", "to_machine_dict", "dict_roundtrip", "to_dict",
                      "string_roundtrip", "parse", "to_str_list"])
     i, j = rng.choice(cs), rng.choice(cs)
@@ -53,6 +54,13 @@ def pick_step(rng, pool):
     if op == "rename":
         maps = [[rng.choice(names), rng.choice(names + ["fresh1", "fresh2"])] for _ in range(rng.randint(1, 2))]
         return op, [ci, maps], [arg_contract(ci), plain(maps)], [i]
+    if op == "rename_one":
+        # the singular method, called directly on the pool member (rename_variables works on a copy): fresh target, an
+        # existing variable of the same side (the merge branches), the other side (refused), the source itself
+        src = rng.choice(names)
+        same_side = [str(v) for v in (ci.inputvars if Var(src) in ci.inputvars else ci.outputvars)]
+        tgt = rng.choice(same_side + same_side + names + ["fresh1"])
+        return op, [ci, src, tgt], [arg_contract(ci), plain(src), plain(tgt)], [i]
     if op in ("copy", "to_machine_dict", "to_dict"):
         return op, [ci], [arg_contract(ci)], [i]
     if op in ("dict_roundtrip", "string_roundtrip"):
@@ -60,6 +68,11 @@ def pick_step(rng, pool):
     if op in ("elim_refine", "elim_relax"):
         tl, ctx = (ci.a, ci.g) if rng.random() < 0.5 else (ci.g, cj.g)
         vs = [v for v in tl.vars if rng.random() < 0.4] or list(tl.vars[:1]) or [Var("x")]
+        if rng.random() < 0.5 and len(tl.terms) > 1:
+            # eliminate the variables of ONE term only, so that the other terms pass through untouched
+            vs = list(rng.choice(tl.terms).vars)[:2] or vs
+        if op == "elim_refine":
+            sp = rng.random() < 0.35          # simplify=False works on the operand itself: the interesting path
         od = order or [1, 2, 3, 4, 5]
         return op, [tl, ctx, vs, sp, od], [arg_terms(tl), arg_terms(ctx), {"k": "vars", "x": [str(v) for v in vs]}, plain(sp), plain(od)], [i, j]
     if op in ("tl_simplify", "tl_refines"):
